@@ -180,6 +180,10 @@ func (t *IDTokenClaims) GetUserInfo() *UserInfo {
 
 func NewIDTokenClaims(issuer, subject string, audience []string, expiration, authTime time.Time, nonce string, acr string, amr []string, clientID string, skew time.Duration) *IDTokenClaims {
 	audience = AppendClientIDToAudience(clientID, audience)
+	if !authTime.IsZero() {
+		// an absent auth time stays absent: shifting the zero time would yield a bogus negative auth_time
+		authTime = authTime.Add(-skew)
+	}
 	return &IDTokenClaims{
 		TokenClaims: TokenClaims{
 			Issuer:                              issuer,
@@ -187,7 +191,7 @@ func NewIDTokenClaims(issuer, subject string, audience []string, expiration, aut
 			Audience:                            audience,
 			Expiration:                          FromTime(expiration),
 			IssuedAt:                            FromTime(time.Now().Add(-skew)),
-			AuthTime:                            FromTime(authTime.Add(-skew)),
+			AuthTime:                            FromTime(authTime),
 			Nonce:                               nonce,
 			AuthenticationContextClassReference: acr,
 			AuthenticationMethodsReferences:     amr,
